@@ -62,7 +62,7 @@ try:
         detected = {}
         for p in props:
             t = time.time()
-            rc, o = sh("bin/check %s quick" % p, cwd=v, timeout=3000)
+            rc, o = sh("bin/check %s %s" % (p, os.environ.get("TIER", "quick")), cwd=v, timeout=6000)
             nv = o.count("VIOLATION property=")
             whats = []
             for line in o.splitlines():
